@@ -11,7 +11,10 @@ package pebbledb
 
 import (
 	"fmt"
+	"strings"
+	"sync/atomic"
 	"testing"
+	"time"
 
 	vs "github.com/BlackVectorOps/semantic_firewall/v3/internal/verifsim"
 	"github.com/BlackVectorOps/semantic_firewall/v3/internal/verifsim/simdisk"
@@ -84,6 +87,22 @@ func runC07(t *vs.Tape, cfg map[string]string) (res vs.Result) {
 		nOps = len(script)
 		c.Inc("runs_bulk_script")
 	}
+	// A quarter of the ordinary histories has a SECOND CALLER: while the WAL sync
+	// of one tape-chosen mutation is in flight (the first caller not yet
+	// acknowledged), another goroutine submits the very same mutation on the same
+	// handle. It either waits for the first caller (learned from the lock hook,
+	// not from timing) or is acknowledged at once - and then its mutation, being
+	// acknowledged, must already be durable at that very instant.
+	shadowStep := -1
+	if !bulkScript && t.Chance("shadow", 1, 4) {
+		shadowStep = t.Intn(nOps, "shadow.step")
+	}
+	type shadowAck struct {
+		q    int
+		step int
+		desc string
+	}
+	var acks []shadowAck
 	for i := 0; i < nOps; i++ {
 		if script != nil {
 			w := make([]int, int(opMigrate)+1)
@@ -94,7 +113,53 @@ func runC07(t *vs.Tape, cfg map[string]string) (res vs.Result) {
 		trace = append(trace, op.String())
 		h := histOp{desc: op.String(), kind: op.Kind, before: e.m.clone(), mutation: isMutation(op.Kind)}
 		h.inv = disk.Seq()
-		if v := e.apply(op, g); v != nil {
+		var g2done chan struct{}
+		if i == shadowStep && shadowRepeatable(op) {
+			var armed atomic.Bool
+			armed.Store(true)
+			blocked := make(chan struct{}, 1)
+			vs.SetLockWaitHook(func(string) {
+				select {
+				case blocked <- struct{}{}:
+				default:
+				}
+			})
+			st := e.s
+			step := i
+			disk.SetPreSync(func(path string) {
+				if simdisk.FileClass(path) != "wal" || !armed.CompareAndSwap(true, false) {
+					return
+				}
+				q := disk.Seq()
+				ret := make(chan error, 1)
+				g2done = make(chan struct{})
+				go func() {
+					ret <- shadowRepeat(st, op)
+					close(g2done)
+				}()
+				select {
+				case err := <-ret:
+					if err == nil {
+						acks = append(acks, shadowAck{q: q, step: step, desc: op.String()})
+					}
+					c.Inc("second_caller_returned_during_sync")
+				case <-blocked:
+					c.Inc("second_caller_waited_for_first")
+				case <-time.After(5 * time.Second):
+					c.Inc("second_caller_stuck")
+				}
+			})
+			c.Inc("runs_with_second_caller")
+		}
+		v := e.apply(op, g)
+		if i == shadowStep {
+			disk.SetPreSync(nil)
+			if g2done != nil {
+				<-g2done
+			}
+			vs.SetLockWaitHook(nil)
+		}
+		if v != nil {
 			v.Msg = fmt.Sprintf("step %d %s: %s", i, op, v.Msg)
 			res.Violation = v
 			e.s.Close()
@@ -124,6 +189,22 @@ func runC07(t *vs.Tape, cfg map[string]string) (res vs.Result) {
 	}
 	images := 0
 	inflightImages := 0
+	// a second caller that was acknowledged while the first caller's sync was in
+	// flight: had the machine died at that instant, the mutation must be there
+	for _, a := range acks {
+		h := hist[a.step+1] // hist[0] is Open()
+		img := simdisk.Image(log, a.q, simdisk.CrashStrict, &simdisk.SeedChooser{S: tornSeed})
+		where := fmt.Sprintf("crash[machine-strict] q=%d: a second caller of %s was acknowledged while the first caller's WAL sync was still in flight", a.q, a.desc)
+		images++
+		if v := checkImage(img, h.after, nil, where, c, t, log, a.q, simdisk.CrashStrict, tornSeed, 1); v != nil {
+			v.Class = "C07/acknowledged-before-durable/" + strings.TrimPrefix(v.Class, "C07/")
+			res.Violation = v
+			res.Sample = map[string]any{"ops": maskAuto(trace), "crash": where}
+			res.Digest = vs.Hash(maskAuto(trace)...)
+			return
+		}
+		c.Inc("second_caller_acks_checked")
+	}
 	// Crash points are enumerated exhaustively; only for bulk histories (thousands
 	// of signatures, every image costs ~50 ms) they are thinned to at most ~90,
 	// always keeping the boundaries of every API call.
@@ -373,4 +454,40 @@ func checkRecovered(s *PebbleScanner, cur *storeModel, fl *histOp, where string,
 
 func TestVerifC07(t *testing.T) {
 	vs.Main(t, vs.Engine{Property: "C07", Name: "storesim-crash", MaxTape: 4096, Run: runC07})
+}
+
+// shadowRepeatable: mutations a second caller can submit again without changing
+// the outcome (explicit IDs, same content; a second delete of the same ID).
+func shadowRepeatable(op storeOp) bool {
+	switch op.Kind {
+	case opAdd, opAddBatch:
+		for _, sg := range op.Sigs {
+			if sg.ID == "" || sg.TopologyHash == "" {
+				return false
+			}
+		}
+		return len(op.Sigs) > 0
+	case opDelete:
+		return true
+	}
+	return false
+}
+
+func shadowRepeat(s *PebbleScanner, op storeOp) error {
+	switch op.Kind {
+	case opAdd:
+		sg := cloneSig(op.Sigs[0])
+		return s.AddSignature(&sg)
+	case opAddBatch:
+		cp := make([]detection.Signature, len(op.Sigs))
+		ptrs := make([]*detection.Signature, len(op.Sigs))
+		for i := range op.Sigs {
+			cp[i] = cloneSig(op.Sigs[i])
+			ptrs[i] = &cp[i]
+		}
+		return s.AddSignatures(ptrs)
+	case opDelete:
+		return s.DeleteSignature(op.ID)
+	}
+	return nil
 }
